@@ -48,6 +48,12 @@ import (
 //                  receiver or argument (who they are decides whether they may write)
 //   dyn_calls      calls through function values or foreign interfaces with a shared reference
 //   pkg_vars       package-level variables of the analysed packages
+//   map_ranges     every `for ... range m` over a MAP in the front-end packages (parser, lexer,
+//                  internal/ast, internal/resolver, internal/compiler) with the complete text of
+//                  the statement: the places where Go's randomised iteration order can leak
+//                  into the result of ParseProgram
+//   iter_callers   every call of ResolvedProgram.IterVars / IterFuncs (which hand the entries
+//                  of a map to a callback in map order), with the text of the call
 //
 // The classification these facts are checked against is committed in
 // rocq/Proofs/DeterminismTables.v.
@@ -977,6 +983,75 @@ func c19Analyse(repo string) (string, error) {
 	sort.Strings(fresh)
 	sb.WriteString("(* foreign functions assumed to return memory that does not alias their arguments *)\n")
 	sb.WriteString("Definition assumed_fresh : list string := [" + strings.Join(fresh, "; ") + "].\n\n")
+	// ---- where map iteration order can leak into the parse result ----
+	frontEnd := map[string]bool{"parser": true, "lexer": true, "internal/ast": true, "internal/resolver": true, "internal/compiler": true}
+	type mr struct {
+		pkg, file, fn string
+		ord           int
+		text          string
+	}
+	var ranges, iters []mr
+	for _, d := range c19Pkgs {
+		for _, f := range l.files[c19ModPrefix+d] {
+			for _, decl := range f.Decls {
+				fd, ok := decl.(*ast.FuncDecl)
+				if !ok || fd.Body == nil {
+					continue
+				}
+				fn := fd.Name.Name
+				if fd.Recv != nil && len(fd.Recv.List) > 0 {
+					fn = render(fset, fd.Recv.List[0].Type) + "." + fd.Name.Name
+				}
+				nr, ni := 0, 0
+				ast.Inspect(fd.Body, func(n ast.Node) bool {
+					switch x := n.(type) {
+					case *ast.RangeStmt:
+						if !frontEnd[d] {
+							return true
+						}
+						if t := a.typeOf(x.X); t != nil {
+							if _, isMap := t.Underlying().(*types.Map); isMap {
+								nr++
+								ranges = append(ranges, mr{d, l.names[f], fn, nr, render(fset, x)})
+							}
+						}
+					case *ast.CallExpr:
+						if callee, _ := a.callee(x); callee != nil && a.isRepo(callee) &&
+							(callee.Name() == "IterVars" || callee.Name() == "IterFuncs") {
+							ni++
+							iters = append(iters, mr{d, l.names[f], fn, ni, render(fset, x)})
+						}
+					}
+					return true
+				})
+			}
+		}
+	}
+	emitMR := func(name, comment string, xs []mr) {
+		sort.SliceStable(xs, func(i, j int) bool {
+			x, y := xs[i], xs[j]
+			if x.pkg != y.pkg {
+				return x.pkg < y.pkg
+			}
+			if x.file != y.file {
+				return x.file < y.file
+			}
+			if x.fn != y.fn {
+				return x.fn < y.fn
+			}
+			return x.ord < y.ord
+		})
+		fmt.Fprintf(&sb, "(* %s: (package, file, function, ordinal, text) *)\nDefinition %s : list (string * string * string * Z * string) :=\n  [", comment, name)
+		for i, x := range xs {
+			if i > 0 {
+				sb.WriteString(";\n   ")
+			}
+			fmt.Fprintf(&sb, "(%s, %s, %s, %d%%Z, %s)", CoqString(x.pkg), CoqString(x.file), CoqString(x.fn), x.ord, CoqString(x.text))
+		}
+		sb.WriteString("].\n\n")
+	}
+	emitMR("map_ranges", "range statements over maps in the front end", ranges)
+	emitMR("iter_callers", "calls of IterVars / IterFuncs (callbacks run in map order)", iters)
 	sb.WriteString("(* package-level variables: (package, name, type, holds references) *)\n")
 	sb.WriteString("Definition pkg_vars : list (string * string * string * bool) :=\n  [")
 	for i, v := range pvars {
